@@ -141,6 +141,18 @@ def test_dict():
 def test_tuple():
     assert (1, "{s}") == snapshot()
 '''}
+    # one snapshot whose pending changes alternate between categories (fix, update, fix / trim, fix, trim)
+    P["interleaved categories"] = {"test_something.py": f'''from inline_snapshot import snapshot
+
+
+def test_alt_list():
+    assert [0, 2, {v}] == snapshot([1, 1 + 1, 3])
+
+
+def test_alt_dict():
+    s = snapshot({{"a": 1, "b": 0, "c": 3}})
+    assert s["b"] == {v}
+'''}
     P["operations in/<=/>=/[key]"] = {"test_something.py": f'''from inline_snapshot import snapshot
 
 
